@@ -429,3 +429,134 @@ _accessor("write_link_keys", {
     "EZSPv4": _write_link_keys("addOrUpdateKeyTableEntry", "keyData", "address", False),
     "EZSPv13": _write_link_keys("importLinkKey", "key", "address", True),
 })
+
+
+# ---------------------------------------------------------------------------
+# frame-counter writers and child table accessors (C14: "where the protocol version can store them")
+# ---------------------------------------------------------------------------
+def _with_args(c, extra):
+    c.cases_ = [(lab, {**ty, **extra}) for lab, ty in c.cases_]
+
+
+def _not_stored(arg_types):
+    """this version cannot store the item: nothing is sent to the NCP, nothing raised"""
+    def build(c):
+        _with_args(c, arg_types)
+        c.ensures("post.nothing_sent", lambda fx: commands(fx) == [], on="any")
+
+    return build
+
+
+def _write_frame_counter(value_id):
+    def build(c):
+        _with_args(c, {"frame_counter": T.range(0, 0xFFFFFFFF)})
+        c.raises("wrong_state_or_rejected", AssertionError)
+        # the counter supplied -- whatever its value, zero included -- is written under the right value id,
+        # as its 4-byte little-endian image, after checking that no network is up; success only if accepted
+        c.ensures(
+            "post.counter_written_as_given",
+            lambda self, frame_counter, fx: [q[0] for q in commands(fx)] == ["networkState", "setValue"]
+            and commands(fx)[1][1]["valueId"] == value_id
+            and commands(fx)[1][1]["value"] == t.uint32_t(frame_counter).serialize()
+            and sorted(commands(fx)[1][1].keys()) == sorted(tx_names(self, "setValue")),
+        )
+        c.ensures(
+            "post.only_when_no_network_and_accepted",
+            lambda fx: field(responses(fx)[0], "status") == t.EmberNetworkStatus.NO_NETWORK
+            and t.sl_Status.from_ember_status(field(responses(fx)[1], "status")) == t.sl_Status.OK,
+        )
+        c.ensures("post.at_most_one_write", lambda fx: len([q for q in commands(fx) if q[0] == "setValue"]) <= 1, on="any")
+
+    return build
+
+
+_accessor("write_nwk_frame_counter", {
+    "EZSPv4": _not_stored({"frame_counter": T.range(0, 0xFFFFFFFF)}),
+    "EZSPv5": _write_frame_counter(t.EzspValueId.VALUE_NWK_FRAME_COUNTER),
+})
+_accessor("write_aps_frame_counter", {
+    "EZSPv4": _not_stored({"frame_counter": T.range(0, 0xFFFFFFFF)}),
+    "EZSPv5": _write_frame_counter(t.EzspValueId.VALUE_APS_FRAME_COUNTER),
+})
+
+
+# ---- child table ------------------------------------------------------------------------------------------------
+class _ChildMapT:
+    """{child0: nwk0, child1: nwk1}: two distinct children (concrete spine, symbolic addresses)"""
+
+    def fresh(self, I, name):
+        c0, c1 = T.opaque.fresh(I, "child0"), T.opaque.fresh(I, "child1")
+        I.ctx.assume(c0.t != c1.t)
+        return {c0: T.typed_int(t.EmberNodeId).fresh(I, "nwk0"), c1: T.typed_int(t.EmberNodeId).fresh(I, "nwk1")}
+
+
+def _write_child_data(struct_name):
+    def build(c):
+        _with_args(c, {"children": _ChildMapT()})
+        # "the child table": one setChildData per child, at consecutive indices from 0, carrying that child's
+        # address pair; written as a sleepy end device (the only kind the NCP keeps a table entry for)
+        c.ensures(
+            "post.one_entry_per_child_with_its_addresses",
+            lambda self, children, fx: [q[0] for q in commands(fx)] == ["setChildData"] * len(children)
+            and all(q[1]["index"] == i for i, q in enumerate(commands(fx)))
+            and all(q[1]["child_data"].eui64 == k and q[1]["child_data"].id == children[k]
+                    and q[1]["child_data"].type == t.EmberNodeType.SLEEPY_END_DEVICE
+                    for q, k in zip(commands(fx), list(children.keys())))
+            and all(sorted(q[1].keys()) == sorted(tx_names(self, "setChildData")) for q in commands(fx)),
+        )
+        # the struct handed over is the one this version's request schema declares
+        c.ensures(
+            "post.child_struct_of_this_version",
+            lambda self, fx: all(type(q[1]["child_data"]) is type(self).COMMANDS["setChildData"][1]["child_data"] for q in commands(fx)),
+        )
+
+    return build
+
+
+_accessor("write_child_data", {
+    "EZSPv4": _not_stored({"children": _ChildMapT()}),
+    "EZSPv9": _write_child_data("EmberChildDataV7"),
+    "EZSPv10": _write_child_data("EmberChildDataV10"),
+})
+
+
+def child_struct(rsp):
+    """the child struct of a getChildData response: the field is called childData up to v9, child_data from v10"""
+    return field(rsp, "child_data") if has_field(rsp, "child_data") else field(rsp, "childData")
+
+
+def _read_child_data(flat):
+    """one getChildData per index 0..255; an entry is yielded unless the NCP says there is no child at that index;
+    what is yielded is (nwk, eui64, type) of that entry -- from this version's response fields"""
+    def build(c):
+        c.loop(
+            0,
+            generic=T.range(0, 255),  # the body is verified once, for an arbitrary index of the table
+            iteration_raises=(Exception, asyncio.CancelledError),  # a failed / cancelled command ends the read
+            at_entry=[("whole_table_is_walked", lambda _items: _items == list(range(0, 256)))],
+            each=[
+                ("one_read_per_index", lambda idx, fx: commands(fx) == [("getChildData", {"index": idx})]),
+                (
+                    "child_entries_are_yielded_with_their_fields",
+                    lambda fx: implies(
+                        len(responses(fx)) == 1 and t.sl_Status.from_ember_status(field(responses(fx)[0], "status")) != t.sl_Status.NOT_JOINED,
+                        len(yielded(fx)) == 1
+                        and yielded(fx)[0][0] == (field(responses(fx)[0], "childId") if flat else child_struct(responses(fx)[0]).id)
+                        and yielded(fx)[0][1] == (field(responses(fx)[0], "childEui64") if flat else child_struct(responses(fx)[0]).eui64)
+                        and yielded(fx)[0][2] == (field(responses(fx)[0], "childType") if flat else child_struct(responses(fx)[0]).type),
+                    ),
+                ),
+                (
+                    "empty_slots_yield_nothing",
+                    lambda fx: implies(
+                        len(responses(fx)) == 1 and t.sl_Status.from_ember_status(field(responses(fx)[0], "status")) == t.sl_Status.NOT_JOINED,
+                        yielded(fx) == [],
+                    ),
+                ),
+            ],
+        )
+
+    return build
+
+
+_accessor("read_child_data", {"EZSPv4": _read_child_data(True), "EZSPv7": _read_child_data(False)})
